@@ -34,6 +34,7 @@ def run(ctx):
     check_exhaustive(ctx, prog)
     check_accept(ctx, prog)
     check_chunks(ctx, prog, m)
+    check_fresh(ctx, prog)
     check_corpus(ctx, prog, m)
     check_numbers(ctx, prog)
     check_utf16_helper(ctx)
@@ -541,3 +542,82 @@ def check_corpus(ctx, prog, m):
     ctx.check(bad is None, 'C06.docs', f['pq'], role, fwhere(f), '%d documents, %d final configurations: each document has a run that closes every container without error' % (len(CORPUS), total),
               'no run of the parser over the valid document %s ends with all containers closed and no error (final configurations: %s): the document is rejected or its structure is lost' % (
                   bad[0].decode('latin-1').replace('\n', '\\n') if bad else '', '; '.join(bad[1]) if bad else ''))
+
+
+
+def members_written(prog, f):
+    """members of the current object that f (class helpers inlined) stores to, steps, or calls a non-const member on"""
+    out = {}
+    for e in q.fn_exprs_inlined(prog, f):
+        tgt = None
+        if e.get('k') == 'bin' and e.get('op', '').endswith('=') and e['op'] not in ('==', '!=', '<=', '>='):
+            tgt = strip_lv(e['x'])
+        elif e.get('k') == 'un' and e.get('op') in ('post++', 'pre++', 'post--', 'pre--'):
+            tgt = strip_lv(e['e'])
+        elif e.get('k') == 'call' and e.get('obj') is not None and 'const' not in (e.get('sig') or '').split(')')[-1]:
+            tgt = strip_lv(e['obj'])
+        while tgt is not None and tgt.get('k') == 'idx':
+            tgt = strip_lv(tgt['b'])
+        if tgt is not None and tgt.get('k') == 'mem' and tgt.get('f') and strip_lv(tgt.get('b') or {'k': 'this'}).get('k') == 'this':
+            out.setdefault(tgt['f'], e.get('l'))
+    return out
+
+
+def check_fresh(ctx, prog):
+    """C06.fresh: decode(text) is a function of the text.  The static decode / read entry points run the text through a parser
+    that starts in the constructor's configuration: either an object constructed in that call (automatic storage), or - when
+    the object outlives the call (static, thread_local, a reference handed out by a helper) - one that is reset first by a
+    function assigning every member that the constructor initialises and parse() changes.  A comment flag or escape counter
+    left by the previous text makes a valid document fail or decode differently."""
+    ctor = [f for f in prog.fn('asl::XdlParser::XdlParser') if f.get('body') and not f.get('copyctor') and not f.get('implicit')]
+    parse = fn1(prog, 'asl::XdlParser::parse')
+    if not ctor:
+        raise AnalysisBroken('XdlParser constructor not found')
+    state = set(members_written(prog, ctor[0])) | set(i_['field'] for i_ in ctor[0].get('inits') or [] if i_.get('field') and i_.get('written'))
+    state &= set(members_written(prog, parse))
+    n = 0
+    for name in ('asl::Xdl::decode', 'asl::Json::decode', 'asl::Xdl::read', 'asl::Json::read'):
+        for g in prog.fn(name):
+            if not g.get('body'):
+                continue
+            uses = [e for e in fn_exprs(g) if e.get('k') == 'call' and e.get('clsp') == 'asl::XdlParser' and e.get('obj') is not None and (e.get('pq') or '').split('::')[-1] in ('decode', 'parse', 'value')]
+            if not uses:
+                continue
+            n += 1
+            ctx.analysed(g)
+            role = '%s%s:parser starts in the initial configuration' % (g['pq'].replace('asl::', ''), g.get('sig') or '')
+            decls = dict((v['id'], v) for s_ in ir.walk_stmts(g['body']) if s_.get('k') == 'decl' for v in s_['vars'])
+            verdict = None
+            for e in uses:
+                o = strip_lv(e['obj'])
+                while o.get('k') in ('temp', 'paren', 'cast'):
+                    o = strip_lv(o['e'])
+                if o.get('k') == 'construct':
+                    continue                        # a temporary
+                if o.get('k') == 'var' and o.get('id') in decls:
+                    v = decls[o['id']]
+                    tv = T(g, v['t'])
+                    if not v.get('static') and not tv.get('ref') and not tv.get('ptr'):
+                        continue                    # automatic object of this call
+                # an object that outlives the call: which function resets it, and what does that function cover?
+                resets = set()
+                helpers = [g]
+                for w in fn_exprs(g):
+                    if w.get('k') == 'call' and w.get('fn'):
+                        helpers += [h for h in prog.fn(w['fn'], w.get('sig')) if h.get('body') and (h.get('file') or '') == (g.get('file') or '')]
+                for h in helpers:
+                    for w in fn_exprs(h):
+                        if w.get('k') == 'call' and w.get('clsp') == 'asl::XdlParser' and w.get('obj') is not None and (w.get('pq') or '').split('::')[-1] not in ('decode', 'parse', 'value'):
+                            for r_ in prog.fn(w['fn'], w.get('sig')):
+                                if r_.get('body'):
+                                    resets |= set(members_written(prog, r_))
+                missing = sorted(state - resets)
+                verdict = (e.get('l'), missing) if missing else verdict
+                if missing:
+                    break
+            if verdict:
+                ctx.violation('C06.fresh', g['pq'], role, fwhere(g, verdict[0]), 'the parser used here outlives the call and is not brought back to the constructor\'s configuration: member(s) %s are initialised by the constructor and changed by parse() but not assigned by the reset - a text that ends inside a comment or an escape changes how the next text is decoded' % ', '.join(verdict[1]))
+            else:
+                ctx.ok('C06.fresh', g['pq'], role, fwhere(g), 'a parser constructed in this call (or reset in all %d state members)' % len(state))
+    ctx.info['parser_state_members'] = sorted(state)
+    ctx.floor('C06.fresh', n, 2)
